@@ -9,9 +9,9 @@ import vlib
 
 PID = "C07"
 SPEC, CFG, DIAG = "Tr_Eval.tla", "Tr_Eval.cfg", "Tr_Eval_diag.cfg"
-NETS = ["rand1", "material", "extreme", "rand2"]
+NETS = ["rand1", "overflow", "material", "extreme", "rand2"]      # "overflow": 16-bit accumulators wrap around in ordinary positions
 SIZES = {"quick": dict(walks=220, searches=24, nets=3, variants=["avx2"], values=200),
-         "thorough": dict(walks=4000, searches=300, nets=4, variants=["ssse3", "avx2", "avx512"], values=3000)}
+         "thorough": dict(walks=4000, searches=300, nets=5, variants=["ssse3", "avx2", "avx512"], values=3000)}
 
 
 def cpu_has(flag):
